@@ -122,6 +122,14 @@ def make_param(eng, st, name, ann, override=None):
             return o
         if not isinstance(kind, str):
             return kind          # concrete structural value
+        if kind.startswith('comm:'):
+            # a communicator shared by several objects of the structural case (same tag = same object)
+            tab = st.ghost.setdefault('comm_tags', {})
+            if kind not in tab:
+                o = Obj(('<mpi>', 'Comm'))
+                st.objs[o.oid] = {'cid': kind[5:]}
+                tab[kind] = o
+            return tab[kind]
         if kind == 'comm':
             o = Obj(('<mpi>', 'Comm'))
             st.objs[o.oid] = {'cid': name}
@@ -746,10 +754,17 @@ def new_ctx(repo=None):
                     if ('flatb', aid, t.get_id()) not in seen_pairs:
                         seen_pairs.add(('flatb', aid, t.get_id()))
                         out.extend(flat.concat_rel_axioms(rank, app, t))
-            for aid, app in apps.get('prod%d' % rank, {}).items():
+            pocc = list(apps.get('prod%d' % rank, {}).items())
+            for aid, app in pocc:
                 if ('prod', aid) not in seen:
                     seen[('prod', aid)] = 0
                     out.extend(flat.prod_axioms(rank, app))
+            if len(pocc) <= 10:
+                import itertools
+                for (i1, a1), (i2, a2) in itertools.combinations(pocc, 2):
+                    if ('prodp', i1, i2) not in seen_pairs:
+                        seen_pairs.add(('prodp', i1, i2))
+                        out.extend(flat.prod_pair_axioms(rank, a1, a2))
             if len(occ) <= 14:
                 import itertools
                 for (i1, a1), (i2, a2) in itertools.combinations(occ, 2):
